@@ -164,7 +164,7 @@ func genBlues(maxPairs int) *rapid.Generator[[]int16] {
 		case kind == 8:
 			lo, maxStep = -16000, 32767/(2*pairs) // whole int16 range, spread <= 32767
 		case kind == 9:
-			lo, maxStep = -32768, 65535/(2*pairs) // spread may exceed 32767 (labelled)
+			lo, maxStep = -32768, 60000/pairs // single steps may exceed 32767 (labelled)
 		}
 		res := make([]int16, 0, 2*pairs)
 		cur := lo + rapid.IntRange(0, maxStep).Draw(t, "first")
